@@ -43,8 +43,14 @@
 (*           track parameters (--track-params),                             *)
 (*           refs: SUBSET Reserved  names of Rally's own template variables *)
 (*           that the file references (in its description text),            *)
-(*           parts: SUBSET {"ops","chals","corpora"} fragments that live in *)
-(*           included files (rally.collect), tight: BOOLEAN the include is  *)
+(*           parts: SUBSET {"ops","chals","corpora","opsN","sched","docs"}  *)
+(*           fragments that live in included files (rally.collect): the     *)
+(*           operations / challenges / corpora list in a part in a          *)
+(*           sub-directory of the track; "opsN" / "sched" / "docs" = a      *)
+(*           fragment OF THAT PART (all operations / each schedule / each   *)
+(*           documents list) in a second-level part, included from the      *)
+(*           first-level part with a pattern relative to ITS directory,     *)
+(*           tight: BOOLEAN the include is                                  *)
 (*           written {{rally.collect(parts="..")}} without blanks,          *)
 (*           defect: [k: Str, c, e, t: Int] a schema-level defect that the  *)
 (*           typed fields cannot express (wrong JSON type / missing         *)
@@ -438,7 +444,10 @@ CandUseReserved == {[f EXCEPT !.refs = @ \cup {q}] : q \in ReservedCand \ f.refs
 CandSplitIntoPart ==
     {[f EXCEPT !.parts = @ \cup {k}, !.tight = tg] : tg \in (IF f.parts = {} THEN BOOLEAN ELSE {f.tight}),
         k \in {k \in PartKinds \ f.parts :
-        CASE k = "ops" -> Len(f.ops) > 0 [] k = "chals" -> f.form = "challenges" [] k = "corpora" -> Len(f.corpora) > 0 [] OTHER -> FALSE}}
+        CASE k = "ops" -> Len(f.ops) > 0 [] k = "chals" -> f.form = "challenges" [] k = "corpora" -> Len(f.corpora) > 0
+          \* a fragment of a part moves into a second-level part (nested include)
+          [] k = "opsN" -> "ops" \in f.parts [] k = "sched" -> "chals" \in f.parts [] k = "docs" -> "corpora" \in f.parts
+          [] OTHER -> FALSE}}
 \* schema-level defects, at every position where the kind of defect can occur
 DefectAt(k) ==
     CASE k \in {"clientsStr", "nameNum", "taskNoOp"} ->
